@@ -1982,6 +1982,113 @@ func genDropRepCase(r *rand.Rand, id int) Case {
 	return c
 }
 
+// genInnerCmpCase ("+innercmp", own PRNG stream; round 8, seed C09-h): a vector aggregation with a by / without clause (or none)
+// over count_over_time / bytes_over_time / rate with a comparison written INSIDE the vector aggregation, on lines whose extracted
+// label sets (lvl x host) fall several into one group: the comparison has to see one series per extracted label set, and the
+// thresholds sit between the value of a label set and the total of its group.
+func genInnerCmpCase(r *rand.Rand, id int) Case {
+	c := Case{ID: id, CrashStage: -1}
+	logfmt := r.Intn(3) == 0
+	pipe := " | json"
+	if logfmt {
+		pipe = " | logfmt"
+	}
+	if r.Intn(4) == 0 {
+		pipe += pick(r, []string{` | host!="c"`, ` | lvl=~"err|warn"`, ` | drop pod`, ` | label_format zone="z"`})
+	}
+	line := func(lvl, host string) string {
+		if logfmt {
+			return "lvl=" + lvl + " host=" + host
+		}
+		return `{"lvl":"` + lvl + `","host":"` + host + `"}`
+	}
+	lraFn := pick(r, []string{"count_over_time", "count_over_time", "count_over_time", "bytes_over_time", "bytes_over_time", "rate"})
+	rg := wholeRanges[r.Intn(len(wholeRanges))]
+	aggFn := pick(r, []string{"sum", "sum", "sum", "sum", "count", "max", "min", "avg"})
+	if lraFn == "rate" || aggFn == "avg" {
+		rg = exactRanges[r.Intn(4)]
+	}
+	var th string
+	switch lraFn {
+	case "count_over_time":
+		th = pick(r, []string{"1", "1", "2", "2", "3"})
+	case "bytes_over_time":
+		l := len(line("err", "a")) // lvl in err / wrn, host one letter: every line has this length
+		th = strconv.Itoa(pick2(r, []int{l, l + l/2, 2 * l, 2*l + l/2}))
+	default:
+		// k lines in a range of 2^j seconds: k / 2^j
+		th = map[int64][]string{1e9: {"1", "2"}, 2e9: {"0.5", "1"}, 4e9: {"0.25", "0.5"}, 8e9: {"0.125", "0.25"}}[rg.ns][r.Intn(2)]
+	}
+	op := pick(r, []string{">", ">", ">=", ">=", "<", "<=", "==", "!="})
+	pre, suf := "", ""
+	clause := pick(r, []string{" by (lvl)", " by (lvl)", " without (host)", " without (host)", "", " by (app, lvl)", " by (host)", " without (lvl, app)"})
+	if r.Intn(3) == 0 {
+		suf = clause
+	} else {
+		pre = clause
+	}
+	outer := ""
+	if r.Intn(4) == 0 {
+		outer = " " + pick(r, []string{">", ">=", "<", "!="}) + " " + pick(r, []string{"1", "2", "3"})
+	}
+	c.Query = aggFn + pre + " (" + lraFn + `({app=~"x|web"}` + pipe + " [" + rg.text + "]) " + op + " " + th + ")" + suf + outer
+	c.QTmpl = c.Query
+	c.Class = "lra+agg+innercmp"
+	c.Range, c.RangeKind = rg.text, rangeKind(rg.ns)
+	dur := rg.ns
+	base := int64(1700000000) * 1e9
+	base -= base % dur
+	nb := int64(1 + r.Intn(2))
+	c.From, c.To = base, base+nb*dur
+	c.Limit = int64([]int{0, 10, 40}[r.Intn(3)])
+	type ser struct {
+		labels map[string]string
+		fp     uint64
+	}
+	sers := []ser{{map[string]string{"app": "x"}, 0}}
+	if r.Intn(3) == 0 {
+		sers = append(sers, ser{map[string]string{"app": "web", "pod": "p1"}, 0})
+	}
+	for i := range sers {
+		sers[i].fp = city.CH64([]byte(labelsKey(sers[i].labels)))
+	}
+	hosts := []string{"a", "b"}
+	if r.Intn(3) == 0 {
+		hosts = append(hosts, "c")
+	}
+	var es []Entry
+	for b := int64(0); b < nb; b++ {
+		for _, lvl := range []string{"err", "wrn"} {
+			for _, h := range hosts {
+				k := r.Intn(4) // 0..3 lines of this label set in this window
+				if len(es)+k > 14 {
+					k = 0
+				}
+				for j := 0; j < k; j++ {
+					s := sers[r.Intn(len(sers))]
+					ts := c.From + b*dur + r.Int63n(dur)
+					es = append(es, Entry{TS: ts, FP: s.fp, Labels: cloneMap(s.labels), Msg: hx.Hex(line(lvl, h)), Val: fhex(0)})
+				}
+			}
+		}
+	}
+	sort.SliceStable(es, func(i, j int) bool {
+		if es[i].FP != es[j].FP {
+			return es[i].FP < es[j].FP
+		}
+		return es[i].TS < es[j].TS
+	})
+	if r.Intn(8) != 0 {
+		es = append(es, Entry{Err: "eof", Val: fhex(0)})
+	} else {
+		c.Class += "+noeof"
+	}
+	c.In = split(r, es)
+	return c
+}
+
+func pick2(r *rand.Rand, xs []int) int { return xs[r.Intn(len(xs))] }
+
 func indexOf(xs []string, x string) int {
 	for i, y := range xs {
 		if y == x {
@@ -2161,6 +2268,13 @@ func main() {
 	rd := rand.New(rand.NewSource(int64(f.Seed)*37 + 11))
 	for i := 0; i < f.N/25+5; i++ {
 		c := genDropRepCase(rd, 2*f.N+i)
+		run(&c)
+		out.Put(c)
+	}
+	// comparisons written inside a vector aggregation (round 8), from their own stream
+	ri := rand.New(rand.NewSource(int64(f.Seed)*41 + 13))
+	for i := 0; i < f.N/30+5; i++ {
+		c := genInnerCmpCase(ri, 3*f.N+i)
 		run(&c)
 		out.Put(c)
 	}
